@@ -88,6 +88,14 @@ func floorDiv(a, b *big.Int) *big.Int {
 
 // judge returns "" when the outcome is what the statement requires, else a signature and detail.
 func judge(c *Case, o interp.Outcome) (sig, detail string) {
+	if o.Kind == interp.Fuel {
+		vt.Discard("the evaluation ran out of its budget (inconclusive)")
+		return "", ""
+	}
+	return judgeRaw(c, o)
+}
+
+func judgeRaw(c *Case, o interp.Outcome) (sig, detail string) {
 	A, B := big.NewInt(c.A), big.NewInt(c.B)
 	c.Got = o.Show()
 	bad := func(class string) (string, string) {
@@ -373,7 +381,7 @@ func spellVia(t *rapid.T, v int64, pre *[]string, label string) string {
 	case 3:
 		if v == 0 {
 			k := small.Draw(t, label+"k")
-			return rapid.SampledFrom([]string{fmt.Sprintf("(%s * 0)", spell(k)), fmt.Sprintf("(0 * %s)", spell(k)), fmt.Sprintf("(%s - %s)", spell(k), spell(k)), "(6 % 3)", "(0 ** 5)", "(1 // 2)", "(3 <=> 3)", "[].len", `"".len`, fmt.Sprintf("(%s %% %s)", spell(k*7), "7")}).Draw(t, label+"zero")
+			return rapid.SampledFrom([]string{fmt.Sprintf("(%s * 0)", spell(k)), fmt.Sprintf("(0 * %s)", spell(k)), fmt.Sprintf("(%s - %s)", spell(k), spell(k)), "(6 % 3)", "(0 ** 5)", "(1 // 2)", "(3 <=> 3)", "[].len", `"".len`, "(true - true)", "(false * 3)", "(-false)", "(true // 2)", "(false + 0)", "Int.bear.new(0)", "Int.bear({a: 1}).new(0)", "(Int.bear.new(2) - Int.bear.new(2))", fmt.Sprintf("(%s %% %s)", spell(k*7), "7")}).Draw(t, label+"zero")
 		}
 		d := rapid.SampledFrom([]int64{1, -1, 2, 3, 5, 7, 10}).Draw(t, label+"d")
 		if v%d == 0 && !(v == math.MinInt64 && d == -1) {
